@@ -412,6 +412,17 @@ def generate():
     lines.append('Definition gen_public : list string := ' + coq_list([coq_str(p) for p in public]) + '.')
     lines.append('Definition gen_mf_names : list string := ' + coq_list([coq_str(p) for p in mf_names]) + '.')
     lines.append('Definition gen_toplevel : list (string * string) := ' + pairs(sorted(toplevel)) + '.')
+    # every `raise` of the library, verbatim (exception class and message template), in source order per file
+    raises = []
+    for path in all_py_files():
+        rel = os.path.relpath(path, SRC)
+        tree = parse(path)
+        for node in ast.walk(tree):
+            if isinstance(node, ast.FunctionDef):
+                for st in ast.walk(node):
+                    if isinstance(st, ast.Raise):
+                        raises.append((rel, '%s @%d: %s' % (node.name, st.lineno - node.lineno, ast.unparse(st))))
+    lines.append('Definition gen_raises : list (string * string) := ' + pairs(raises) + '.')
     return '\n'.join(lines) + '\n'
 
 
